@@ -47,6 +47,26 @@ CASES = [
                                   ("assign", ("tvar", "r"), ("lcomp", ("int", 0), [("for", ("tindex", ("var", "x"), ("int", 0)), ("list", [("int", 5)])),
                                                                                  ("for", ("tvar", "x"), ("var", "w"))])),
                                   emit(("var", "x"))]),
+    # a lambda capturing a COMPREHENSION variable: the real evaluator keeps one cell per frame slot for all evaluations of the
+    # comprehension in one activation, so both closures see the last value ([1, 1]); the reference and Python give [0, 1]
+    # (found by the slot-machine simulation proof, Scope/SlotSim.v: slots_sim_refuted)
+    ("compr-var-cell-shared-across-evaluations", [
+        ("def", "f", [], [("assign", ("tvar", "fs"), ("list", [])),
+                          ("for", ("tvar", "i"), call("range", ("int", 2)),
+                           [("expr", ("meth", ("var", "fs"), "append", [("lcomp", ("lambda", [], ("var", "x")), [("for", ("tvar", "x"), ("list", [("var", "i")]))])]))]),
+                          emit(("lcomp", ("call", ("index", ("var", "g"), ("int", 0)), [], [], None, None), [("for", ("tvar", "g"), ("var", "fs"))])),
+                          ("return", None)]),
+        ("expr", call("f"))]),
+    # a comprehension variable read before its own clause has bound it in THIS evaluation: the frame slot still holds the value
+    # of the previous evaluation (2), whereas the reference (and Python: UnboundLocalError/NameError) fail at that read
+    # (Scope/SlotSim.v: slots_sim_unbound_needed)
+    ("compr-stale-slot-read", [
+        ("def", "f", [], [("for", ("tvar", "i"), call("range", ("int", 2)),
+                           [emit(("lcomp", ("var", "b"), [("for", ("tvar", "a"), ("list", [("var", "i")])),
+                                                          ("if", ("or", ("bin", "==", ("var", "a"), ("int", 0)), ("var", "b"))),
+                                                          ("for", ("tvar", "b"), ("list", [("int", 2)]))]))]),
+                          ("return", None)]),
+        ("expr", call("f"))]),
     # floor division and modulo of negatives; big integers
     ("int-floor", [emit(("tuple", [("bin", "//", ("int", -7), ("int", 2)), ("bin", "%", ("int", -7), ("int", 2)),
                                    ("bin", "%", ("int", 7), ("int", -2)), ("bin", "*", ("int", 1 << 62), ("int", 1 << 62))]))]),
